@@ -70,8 +70,9 @@ func H12_seq() {
 	cached := verifWorldHandler(0, layout, CacheConfig{Enabled: true, LRUSize: nd.Param("lru")})
 	plain := verifWorldHandler(0, layout, CacheConfig{})
 	for step := 0; step < h; step++ {
-		// the clock may stand still, approach the expiry, or pass it
-		verifClockSec += []int64{0, 999, 1001}[nd.Choice(3)]
+		// the clock advances by a solver-chosen number of seconds (0 .. 65535: it may stand still,
+		// approach the expiry of a cached response or pass it)
+		verifClockSec += int64(nd.Uint16())
 		name := verifC12Names[nd.Choice(nd.Param("names"))]
 		if nd.Bool() {
 			name = strings.ToUpper(name)
